@@ -4,6 +4,7 @@ CONSTANTS
   FieldIds = {1, 2, 5, 15, 16, 17, 70, 300, 32767}
   GenTypes = {"BOOL","I8","I16","I32","I64","DOUBLE","BINARY","STRUCT","LIST","SET","MAP"}
   MaxId = 2
+  MaxMapEntries = 1
   Emit = TRUE
 CONSTRAINT EmitVector
 CONSTRAINT EmitMessages
